@@ -86,6 +86,7 @@ class SLPut(SLBase):
         return st
 
     def on_wait(self, ex, st, cond, notified, node):
+        ex.oblige(st, f'line {node.lineno}: a non-blocking put (block=False) never waits: it raises Full at once', st.env['block'])
         # rely of the writer while it waits on _not_full: only the reader runs; it pops a prefix of Q (G grows by it);
         # a True return means a notify on _not_full happened during the wait, and each such notify follows a pop.
         ex.oblige(st, f'line {node.lineno}: the writer waits on _not_full (the condition the reader notifies after a pop)', z3.BoolVal(cond is self.not_full))
@@ -131,6 +132,7 @@ class SLGet(SLBase):
         return st
 
     def on_wait(self, ex, st, cond, notified, node):
+        ex.oblige(st, f'line {node.lineno}: a non-blocking get (block=False) never waits: it raises Empty at once', st.env['block'])
         # rely of the reader while it waits on _not_empty: only the writer runs; it appends (respecting maxsize);
         # a True return means a notify on _not_empty happened during the wait, and each such notify follows an append.
         ex.oblige(st, f'line {node.lineno}: the reader waits on _not_empty (the condition the writer notifies after an append)', z3.BoolVal(cond is self.not_empty))
